@@ -197,6 +197,27 @@ def run_history(ctx, case, hooks: Hooks, instance=None):
                         or run.d.schedule.is_complete() != (n_before == rr.num_ops):
                     hooks.refused_add_changed_schedule(run, accepted, n_before)
                     return run
+        if explicit is None and rng.random() < 0.03 and run.r.history:
+            # other library components look at the running dispatcher / its schedule in the middle
+            # of the history: a helper observer is created late, the schedule is plotted, turned
+            # into a dictionary ... none of this may change the schedule
+            what = rng.choice(["late_observer", "late_observer", "late_observer", "to_dict", "to_dict", "plot"])
+            if what == "late_observer":
+                from job_shop_lib.dispatching import UnscheduledOperationsObserver
+                from job_shop_lib.dispatching.feature_observers import IsCompletedObserver
+                run.d.create_or_get_observer(rng.choice([UnscheduledOperationsObserver, IsCompletedObserver]))
+            elif what == "to_dict":
+                run.d.schedule.to_dict()
+            elif len(run.ops) <= 40 and inst.get("cls") != "fractional":
+                import matplotlib.pyplot as plt
+                from job_shop_lib.visualization import plot_gantt_chart
+                fig, _ = plot_gantt_chart(run.d.schedule)
+                plt.close(fig)
+            ctx.count("mid_history_consumer_" + what)
+            bad = _state_vs_ref(run)
+            if bad:
+                hooks.fork_diverged(run, dict(bad, who="original", when="after " + what + " in the middle of the history"))
+                return run
         if explicit is not None:
             o, m = explicit[k]
         else:
@@ -359,6 +380,9 @@ def run_consumer(ctx, case, hooks: Hooks):
                                            "first decoded schedule after a second decode for the same instance")
         if schedule_triples(S2) != run2.r.triples():
             hooks.decoded_schedule_differs(schedule_triples(S2), run2.r.triples(), "second decode")
+        S3 = Schedule.from_dict(**run.d.schedule.to_dict())
+        if schedule_triples(S3) != run.r.triples():
+            hooks.decoded_schedule_differs(schedule_triples(S3), run.r.triples(), "from_dict(**to_dict())")
     elif kind == "frames":
         from job_shop_lib.visualization import create_gantt_chart_frames
         from job_shop_lib.dispatching import HistoryObserver
